@@ -20,6 +20,7 @@ def cases(rng, tier):
     n = 1500 if tier == "quick" else 15000
     ps = pktgen.packets(rng, n) + pktgen.big_packets(rng, 3 if tier == "quick" else 20)
     ps += pktgen.straddle_packets(rng, range(0, 26, 2) if tier == "quick" else range(0, 60)) + pktgen.chain_packets(rng)
+    ps += pktgen.huge_packets(rng)
     for k, p in enumerate(ps):
         t = dns.pkt_text(p)
         c = "BUILD C " + t
